@@ -1,7 +1,8 @@
 """C07 - Black-Scholes prices equal the expected payoff under the model.
 Feynman-Kac characterisation on the repo's own price terms: R1 zero-rate Black-Scholes PDE, R2 terminal condition (limit of
 vanishing time to maturity equals the payoff), R3 barrier / running-maximum boundary conditions and regime selector,
-R4 units, R5 module wiring and registry."""
+R4 units, R5 module wiring and registry.
+Added after the seeded-defect rounds: R7 precision provenance: strike, float time to maturity / volatility and constants are not rounded to the default dtype on the way into the closed forms."""
 import ast
 
 import sympy as sp
